@@ -459,6 +459,26 @@ def R2b_rounding_primitives(run):
                 found.add(p.rsplit("::", 1)[-1])
         run.check("R2b", "sdk:next_price_from_b-direction[exact_in=%d]" % ctxv, found == {op}, "SDK next_price_from_b moves the price with %s in mode exact_in=%s, expected price %s delta" % (sorted(found), ctxv, "+" if ctxv else "-"),
                   loc=g.loc(), detail="price %s delta" % ("+" if ctxv else "-"))
+    # the curve products are formed in 256 bits: a u128 product would turn amounts the program treats as merely "larger than u64" into hard errors
+    for name in ("try_get_amount_delta_a", "try_get_amount_delta_b", "try_get_next_sqrt_price_from_a", "try_get_next_sqrt_price_from_b"):
+        g = K.need_fn(TK + name)
+        run.touch(g)
+        narrow = []
+        wide = 0
+        for bi, t in g.calls():
+            p_ = callee_path(t) or ""
+            last = p_.rsplit("::", 1)[-1]
+            if last in ("mul", "checked_mul", "shl", "checked_shl", "wrapping_mul", "overflowing_mul"):
+                if "ethnum" in p_:
+                    wide += 1
+                else:
+                    narrow.append(p_)
+        for bb in g.blocks:
+            for st in bb["s"]:
+                if st["k"] == "=" and st["rv"].get("bin") in ("Mul", "MulWithOverflow", "Shl"):
+                    narrow.append("primitive %s" % st["rv"]["bin"])
+        run.check("R2b", "sdk:%s-wide-products" % name, wide >= 1 and not narrow, "SDK %s multiplies / shifts outside U256: %s" % (name, sorted(set(narrow))), loc=g.loc(),
+                  detail="%d product / shift operation(s), all on ethnum::U256" % wide)
     for name in ("try_get_next_sqrt_price_from_a", "try_get_next_sqrt_price_from_b"):
         g = K.need_fn(TK + name)
         bounds = [at for at in A.atoms(g) if at.false_fail and "SQRT_PRICE_OUT_OF_BOUNDS" in at.false_codes and mentions(at.term, lambda s: s[0] == "call" and s[1].endswith("contains"))]
